@@ -75,7 +75,7 @@ pub static MAP_OPS: &[OpSpec] = &[
     OpSpec { code: map::CLONE_TO_OTHER, name: "clone_to_other", args: &[] },
     OpSpec { code: map::CLONE_FROM_OTHER, name: "clone_from_other", args: &[] },
     OpSpec { code: map::EQ_CHECK, name: "eq_check", args: &[] },
-    OpSpec { code: map::GET_MANY_MUT, name: "get_many_mut", args: &[Small(4), Key, Key, Key, Key, Choice(2)] },
+    OpSpec { code: map::GET_MANY_MUT, name: "get_many_mut", args: &[Small(4), Key, Key, Key, Key, Choice(6)] },
     OpSpec { code: map::RAW_ENTRY, name: "raw_entry_mut", args: &[Key, Choice(3), Choice(12), Val] },
     OpSpec { code: map::RUSTC_ENTRY, name: "rustc_entry", args: &[Key, Choice(10), Val] },
     OpSpec { code: map::INTO_ITER, name: "into_iter", args: &[Choice(3), Frac] },
